@@ -256,7 +256,16 @@ func (engine *Engine) DialAsyncTimeout(network, addr string, timeout time.Durati
 			h(c, nil)
 		})
 	} else if timeout > 0 {
-		_ = c.setDeadline(&c.wTimer, ErrDialTimeout, time.Now().Add(timeout))
+		// The connection is registered already: its poller may have completed
+		// the connect by now, and a dial timer armed after that would never be
+		// cleared. Arm it only while the connect is still pending.
+		c.mux.Lock()
+		if c.onConnected != nil && !c.closed {
+			c.wTimer = engine.AfterFunc(timeout, func() {
+				_ = c.closeWithError(ErrDialTimeout)
+			})
+		}
+		c.mux.Unlock()
 	}
 
 	return nil
